@@ -402,6 +402,37 @@ def job_long(col: Collector, seed: int, tier: str, shard: int, n: int) -> None:
     hyp_run(col, seed * 1000 + 300 + shard, c(), check, n)
 
 
+def job_many(col: Collector, seed: int, tier: str, shard: int, n: int) -> None:
+    """many lines (beyond the 100-slot stream buffers) arriving in few reads: the delivered sequence must not
+    depend on how many lines one read happens to carry."""
+
+    @st.composite
+    def c(draw):
+        k = draw(st.sampled_from([101, 120, 150, 266, 400]))
+        kinds = draw(st.sampled_from(["notifications", "responses", "mixed"]))
+        lines = []
+        for i in range(k):
+            if kinds == "notifications" or (kinds == "mixed" and i % 3):
+                lines.append(json.dumps({"jsonrpc": "2.0", "method": "notifications/message", "params": {"level": "info", "data": i}}).encode())
+            else:
+                lines.append(json.dumps({"jsonrpc": "2.0", "id": i, "result": {"n": i}}).encode())
+        for j in draw(st.lists(st.integers(0, k - 1), max_size=3)):
+            lines[j] = draw(st.sampled_from(JUNK))
+        s = b"\n".join(lines) + b"\n"
+        how = draw(st.sampled_from(["one-read", "two-reads", "4k-reads", "random"]))
+        if how == "one-read":
+            cuts: List[int] = []
+        elif how == "two-reads":
+            cuts = [draw(st.integers(1, len(s) - 1))]
+        elif how == "4k-reads":
+            cuts = list(range(4096, len(s), 4096))
+        else:
+            cuts = draw(st.lists(st.integers(1, len(s) - 1), max_size=8, unique=True))
+        return {"stream": s, "cuts": sorted(cuts), "as_str": False}
+
+    hyp_run(col, seed * 1000 + 350 + shard, c(), check, n)
+
+
 REAL_WRITER = r'''
 import sys, os, json, time
 spec = json.load(open(sys.argv[1]))
@@ -481,17 +512,18 @@ def job_atheris(col: Collector, seed: int, tier: str, seconds: int, corpus: str)
     run_fuzz_job(col, "stdio", seconds, seed, corpus)
 
 
-JOBS = {"real": job_real, "atheris": job_atheris, "hyp": job_hyp, "exhaustive": job_exhaustive, "long": job_long}
+JOBS = {"many": job_many, "real": job_real, "atheris": job_atheris, "hyp": job_hyp, "exhaustive": job_exhaustive, "long": job_long}
 
 
 def jobs(tier: str):
     if tier == "quick":
-        return [("hyp", {"shard": s, "n": 250}) for s in range(8)] + [("exhaustive", {"shard": s, "nshards": 7, "k": 2}) for s in range(7)] + [("long", {"shard": 0, "n": 20})]
+        return [("hyp", {"shard": s, "n": 250}) for s in range(8)] + [("exhaustive", {"shard": s, "nshards": 7, "k": 2}) for s in range(7)] + [("long", {"shard": 0, "n": 20}), ("many", {"shard": 0, "n": 25})]
     return (
         (
         [("hyp", {"shard": s, "n": 6000}) for s in range(6)]
         + [("exhaustive", {"shard": s, "nshards": 8, "k": 3}) for s in range(8)]
         + [("long", {"shard": s, "n": 300}) for s in range(2)]
+        + [("many", {"shard": s, "n": 300}) for s in range(2)]
     )
         + [("atheris", {"seconds": 150, "corpus": "seeded"}), ("atheris", {"seconds": 150, "corpus": "empty"})]
         + [("real", {"shard": s, "n": 40}) for s in range(4)]
